@@ -209,6 +209,18 @@ def tmpdir():
 # ------------------------------------------------------------------ crash-tolerant sharding
 
 
+class _DedupPart(__import__("mc.core", fromlist=["Part"]).Part):
+    """Part whose violation list keeps one entry per key (core.Part stops at 50 entries, which repeated reports of the
+    same root cause would exhaust before a different key shows up)."""
+
+    def violation(self, key, what, replay=None):
+        from .. import core
+        if any(v["key"] == key for v in self["violations"]):
+            return
+        if len(self["violations"]) < 500:
+            self["violations"].append({"key": key, "what": what, "replay": core.jsonable(replay)})
+
+
 def rpmap(ctx, fn, items, nproc=None, init=None, on_death=None, label=None):
     """Like core.pmap, but a worker that dies (signal / exit) does not take the pool down: the item it
     was evaluating is reported through on_death(ctx, item, status) (default: a 'crash' violation keyed
@@ -237,7 +249,7 @@ def rpmap(ctx, fn, items, nproc=None, init=None, on_death=None, label=None):
             os.close(pr)
             os.close(rr)
             try:
-                part = core.Part()
+                part = _DedupPart()
                 state = init() if init else None
                 for i in idxs:
                     os.write(pw, struct.pack("i", i))
